@@ -31,6 +31,20 @@ ENUM = ("    def _enumerate_leases(self, f):\n"
         "            except IndexError:\n"
         "                return\n")
 
+CCS_READ = ("        f.seek(old_extra_lease_offset)\n"
+            "        leases_size = 4 + num_extra_leases * self.LEASE_SIZE\n"
+            "        extra_lease_data = f.read(leases_size)\n")
+
+CCS_MOVE = ("        f.seek(old_extra_lease_offset)\n"
+            "        f.write(b'\\x00' * leases_size)\n"
+            "        f.flush()\n"
+            "\n"
+            "        # An interrupt here will corrupt the leases.\n"
+            "\n"
+            "        f.seek(new_extra_lease_offset)\n"
+            "        f.write(extra_lease_data)\n"
+            "        self._write_extra_lease_offset(f, new_extra_lease_offset)\n")
+
 MUTANTS = [
     # ---- C25.1 renew, else add
     M("add-even-when-renewed", MUT, MUT_AOR,
@@ -200,7 +214,80 @@ MUTANTS = [
     M("new-lease-not-written", MUT, "                self._write_lease_record(f, num_lease_slots, lease_info)", "                pass", "C25.9"),
     M("new-lease-slot-unchecked", MUT, "            if empty_slot is not None:\n                self._write_lease_record(f, empty_slot, lease_info)",
       "            if num_lease_slots:\n                self._write_lease_record(f, empty_slot, lease_info)", "C25.9"),
+    # ---- C25.10 the extra-lease block survives container growth
+    M("zero-old-block-after-copy", MUT, CCS_MOVE,
+      "        f.seek(new_extra_lease_offset)\n        f.write(extra_lease_data)\n"
+      "        self._write_extra_lease_offset(f, new_extra_lease_offset)\n        f.flush()\n\n"
+      "        f.seek(old_extra_lease_offset)\n        f.write(b'\\x00' * leases_size)\n", "C25.10"),
+    M("zero-old-block-last-pointer-first", MUT, CCS_MOVE,
+      "        self._write_extra_lease_offset(f, new_extra_lease_offset)\n        f.seek(new_extra_lease_offset)\n"
+      "        f.write(extra_lease_data)\n        blank = bytes(leases_size)\n        f.seek(old_extra_lease_offset)\n        f.write(blank)\n", "C25.10"),
+    M("old-block-zeroed-before-read", MUT, CCS_READ,
+      "        leases_size = 4 + num_extra_leases * self.LEASE_SIZE\n        f.seek(old_extra_lease_offset)\n"
+      "        f.write(b'\\x00' * leases_size)\n        f.seek(old_extra_lease_offset)\n        extra_lease_data = f.read(leases_size)\n", "C25.10",
+      edits=[(MUT, "        f.seek(old_extra_lease_offset)\n        f.write(b'\\x00' * leases_size)\n        f.flush()\n", "        f.flush()\n")]),
+    M("block-read-without-count-field", MUT, "        leases_size = 4 + num_extra_leases * self.LEASE_SIZE\n",
+      "        leases_size = num_extra_leases * self.LEASE_SIZE\n", "C25.10"),
+    M("block-read-unpositioned", MUT, CCS_READ,
+      "        leases_size = 4 + num_extra_leases * self.LEASE_SIZE\n        extra_lease_data = f.read(leases_size)\n", "C25.10"),
+    M("block-read-after-data-length", MUT, CCS_READ,
+      "        f.seek(old_extra_lease_offset)\n        leases_size = 4 + num_extra_leases * self.LEASE_SIZE\n"
+      "        if self._read_data_length(f) > new_container_size:\n            return\n        extra_lease_data = f.read(leases_size)\n", "C25.10"),
+    M("header-points-at-old-block", MUT, "        self._write_extra_lease_offset(f, new_extra_lease_offset)\n",
+      "        self._write_extra_lease_offset(f, old_extra_lease_offset)\n", "C25.10"),
+    M("copy-skipped-when-blocks-overlap", MUT, "        f.seek(new_extra_lease_offset)\n        f.write(extra_lease_data)\n",
+      "        if new_extra_lease_offset - old_extra_lease_offset >= leases_size:\n            f.seek(new_extra_lease_offset)\n"
+      "            f.write(extra_lease_data)\n", "C25.10"),
+    # ---- C25.11 a matched renew secret never ends in 'no such lease'
+    M("immutable-return-only-when-extended", IMM, "                        self._write_lease_record(f, i, lease)\n                return\n",
+      "                        self._write_lease_record(f, i, lease)\n                    return\n", "C25.11"),
+    M("mutable-return-only-when-extended", MUT, "                        self._write_lease_record(f, leasenum, lease)\n                    return\n",
+      "                        self._write_lease_record(f, leasenum, lease)\n                        return\n", "C25.11"),
+    M("match-and-later-merged", IMM, "            if lease.is_renew_secret(renew_secret):\n                # yup. See if we need to update the owner time.\n"
+      "                if allow_backdate or new_expire_time > lease.get_expiration_time():\n                    # yes\n"
+      "                    lease = lease.renew(new_expire_time)\n                    with open(self.home, 'rb+') as f:\n"
+      "                        self._write_lease_record(f, i, lease)\n                return\n",
+      "            if lease.is_renew_secret(renew_secret) and (allow_backdate or new_expire_time > lease.get_expiration_time()):\n"
+      "                lease = lease.renew(new_expire_time)\n                with open(self.home, 'rb+') as f:\n"
+      "                    self._write_lease_record(f, i, lease)\n                return\n", "C25.11"),
+    M("matched-lease-breaks-out", IMM, "                        self._write_lease_record(f, i, lease)\n                return\n",
+      "                        self._write_lease_record(f, i, lease)\n                break\n", "C25.11"),
+    M("unchanged-expiry-is-an-error", MUT, "                        self._write_lease_record(f, leasenum, lease)\n                    return\n",
+      "                        self._write_lease_record(f, leasenum, lease)\n                        return\n"
+      "                    raise IndexError(\"lease is already newer\")\n", "C25.11"),
     # ---- behaviour-preserving
+    M("benign-pointer-before-copy", MUT, CCS_MOVE,
+      "        f.seek(old_extra_lease_offset)\n        f.write(b'\\x00' * leases_size)\n        f.flush()\n\n"
+      "        self._write_extra_lease_offset(f, new_extra_lease_offset)\n        f.seek(new_extra_lease_offset)\n        f.write(extra_lease_data)\n", None),
+    M("benign-zero-vacated-part-after-copy", MUT, CCS_MOVE,
+      "        f.seek(new_extra_lease_offset)\n        f.write(extra_lease_data)\n        self._write_extra_lease_offset(f, new_extra_lease_offset)\n"
+      "        f.flush()\n        vacated = min(leases_size, new_extra_lease_offset - old_extra_lease_offset)\n"
+      "        f.seek(old_extra_lease_offset)\n        f.write(b'\\x00' * vacated)\n", None),
+    M("benign-block-size-inlined", MUT, CCS_READ,
+      "        where = old_extra_lease_offset\n        f.seek(where)\n        extra_lease_data = f.read(num_extra_leases * self.LEASE_SIZE + 4)\n"
+      "        leases_size = len(extra_lease_data)\n", None),
+    M("benign-match-inverted-continue", IMM, "            if lease.is_renew_secret(renew_secret):\n                # yup. See if we need to update the owner time.\n"
+      "                if allow_backdate or new_expire_time > lease.get_expiration_time():\n                    # yes\n"
+      "                    lease = lease.renew(new_expire_time)\n                    with open(self.home, 'rb+') as f:\n"
+      "                        self._write_lease_record(f, i, lease)\n                return\n",
+      "            if not lease.is_renew_secret(renew_secret):\n                continue\n"
+      "            if allow_backdate or new_expire_time > lease.get_expiration_time():\n"
+      "                lease = lease.renew(new_expire_time)\n                with open(self.home, 'rb+') as f:\n"
+      "                    self._write_lease_record(f, i, lease)\n                return\n            return\n", None),
+    M("benign-found-flag", IMM, "            if lease.is_renew_secret(renew_secret):\n                # yup. See if we need to update the owner time.\n"
+      "                if allow_backdate or new_expire_time > lease.get_expiration_time():\n                    # yes\n"
+      "                    lease = lease.renew(new_expire_time)\n                    with open(self.home, 'rb+') as f:\n"
+      "                        self._write_lease_record(f, i, lease)\n                return\n        raise IndexError(\"unable to renew non-existent lease\")\n",
+      "            if lease.is_renew_secret(renew_secret):\n                found = True\n"
+      "                if allow_backdate or new_expire_time > lease.get_expiration_time():\n"
+      "                    lease = lease.renew(new_expire_time)\n                    with open(self.home, 'rb+') as f:\n"
+      "                        self._write_lease_record(f, i, lease)\n                break\n"
+      "        if not found:\n            raise IndexError(\"unable to renew non-existent lease\")\n", None,
+      edits=[(IMM, "        for i,lease in enumerate(self.get_leases()):\n            if lease.is_renew_secret(renew_secret):",
+              "        found = False\n        for i,lease in enumerate(self.get_leases()):\n            if lease.is_renew_secret(renew_secret):")]),
+    M("benign-return-in-both-branches", MUT, "                        self._write_lease_record(f, leasenum, lease)\n                    return\n",
+      "                        self._write_lease_record(f, leasenum, lease)\n                        return\n                    else:\n"
+      "                        return\n", None),
     M("benign-server-renew-early-return", SRV, "        if not found_buckets:\n            raise IndexError(\"no such lease to renew\")\n",
       "        if found_buckets:\n            return\n        raise IndexError(\"no such lease to renew\")\n", None),
     M("benign-digest-size-constant", LSCH, "        return blake2b(secret, digest_size=32, encoder=RawEncoder)",
